@@ -305,13 +305,23 @@ class RegularPolygonPixelRegion(PolygonPixelRegion):
             type(self).nvertices._validate(value)
             if value < 3:
                 raise ValueError('nvertices must be >= 3')
-        super().__setattr__(name, value)
+        if name not in self._params or 'vertices' not in self.__dict__:
+            super().__setattr__(name, value)
+            return
+
         # the vertices (and the derived quantities) follow the defining
-        # parameters when one of them is changed after construction
-        if name in self._params and 'vertices' in self.__dict__:
-            self._vertices = self._calc_vertices()
-            self.vertices = self._vertices
-            self._set_derived()
+        # parameters when one of them is changed after construction;
+        # a value for which they cannot be computed is not assigned
+        old_value = self.__dict__[name]
+        super().__setattr__(name, value)
+        try:
+            vertices = self._calc_vertices()
+        except Exception:
+            self.__dict__[name] = old_value
+            raise
+        self._vertices = vertices
+        self.vertices = vertices
+        self._set_derived()
 
     def __init__(self, center, nvertices, radius, angle=0. * u.deg,
                  meta=None, visual=None):
